@@ -97,6 +97,16 @@ theorem book_inv_adjacent_histories (ch : Chooser) (hv : ch.Valid) (ops : List A
     (hs : sideAll ch { timeout := t } ops = true) : BookInv (runA ch { timeout := t } ops) :=
   (adjacent_history_preserves ch hv ops _ (bookInv_init t) (wf_init t) hs).1
 
+/-- `reconcile_placements` changes nothing on a consistent state (it only acts after a re-registration has
+wiped a worker's bookkeeping) -/
+theorem reconcile_is_noop_when_consistent (s : St) (hb : BookInv s) (redeploy : Bool) : reconcile s redeploy = s :=
+  reconcile_noop s hb redeploy
+
+/-- … and it repairs the re-registration finding: the witness history becomes consistent again -/
+theorem reconcile_repairs_reregistration :
+    let hist : List Step := [.register 1 5 4 0 0, .commitDeploy 7 [⟨"p", none, 1⟩] [⟨"p", 1, true⟩], .register 1 5 4 0 9]
+    bookInvB (run {} hist) = false ∧ bookInvB (reconcile (run {} hist) true) = true := by decide
+
 /-! ### the full statement is false: one witness per call site (known findings) -/
 
 /-- `deregister_worker` (and the end of `drain_worker`) leaves running placements on the removed worker -/
